@@ -143,7 +143,7 @@ fn validate_node(n: &Node, t: ElementType, v: AutosarVersion, path: &str, is_roo
                 },
             }
         }
-        for (an, _, required) in t.attribute_spec_iter() {
+        for (an, _, required) in crate::common::specgraph::attribute_specs(t).into_iter() {
             if required && !present.contains(&an) {
                 out.push(SpecViolation { kind: "required-attribute-missing", at: format!("{here}@{an}") });
             }
